@@ -165,6 +165,14 @@ Theorem C13_round_obligation : dispatcher_try_per_task = true.
 Proof. vm_compute. reflexivity. Qed.
 Print Assumptions C13_round_obligation.
 
+(* the SHAPE of the failure: the dispatcher's PathIOError clause never reads the exception object (at most hands it
+   to a logger call), so its reaction - [gen_react], a function of the clause alone - is the same for a PathIOError made by
+   universal_exception (reason = exc_info), one raised by the backend itself (reason = None or of any shape) and any
+   subclass, and the clause itself cannot raise on one of them.  [ORaise true] below is ANY such exception. *)
+Theorem C13_shape_obligation : pio_clause_payload_free = true.
+Proof. vm_compute. reflexivity. Qed.
+Print Assumptions C13_shape_obligation.
+
 Definition gen_react_ok : react_ok gen_react = true :=
   proj1 (proj2 (proj2 (proj2 (proj2 (proj2 C13_source_obligations))))).
 
